@@ -53,6 +53,10 @@ func HSSHExec() {
 	fsys := vfsx.New()
 	defer fsys.Cleanup()
 	args := []string{"rsync"}
+	if vparam("free0") == 1 {
+		// the program name is client-chosen text as well
+		args[0] = execVocabulary[nd_range(0, len(execVocabulary)-1)]
+	}
 	for i := 0; i < k; i++ {
 		args = append(args, execVocabulary[nd_range(0, len(execVocabulary)-1)])
 	}
